@@ -61,6 +61,18 @@ Example ex_mixins :
 Proof. vm_compute. reflexivity. Qed.
 Example ex_untouched : ~ touches (Eq 1 2) 0 /\ ~ touches (Copy 0) 0 /\ ~ touches (On 1 Items) 0.
 Proof. split; [|split]; simpl; [intros [H|H]; discriminate|tauto|discriminate]. Qed.
+Lemma clear_spec : forall h, inv h ->
+  exists h', step Clear h = (RUnit, h') /\ as_list h' = [] /\ last_key h' = last_key h /\ inv h'.
+Proof. intros h Hi. exact (clear_loop_spec (length (as_list h)) h Hi (le_n _)). Qed.
+Lemma popitem_spec : forall h k vs al, inv h -> as_list h = (k, vs) :: al ->
+  exists h', step PopItem h = (RPairs [(k, join [c_comma] vs)], h') /\
+             as_list h' = al /\ last_key h' = last_key h /\ inv h'.
+Proof. exact pop_first_spec. Qed.
+Example ex_popitem_clear :
+  fst (run_cmds [FromPairs [([97], [49]); ([98], [50])]; On 1 (Add [65] [51]); On 1 Values; On 1 PopItem; On 1 Keys;
+                 On 1 Clear; On 1 PopItem; On 1 Len] [empty_h])
+  = [RUnit; RUnit; RList [[49; 44; 51]; [50]]; RPairs [([65], [49; 44; 51])]; RList [[66]]; RUnit; RErr EKey; RNat 0].
+Proof. vm_compute. reflexivity. Qed.
 Example ex_ci : map lower [88; 45; 121] = map lower [120; 45; 89].
 Proof. reflexivity. Qed.
 Example ex_token_value : is_token [88; 45; 121] = true /\ is_field_value [118; 32; 119] = true.
